@@ -95,6 +95,10 @@ pub enum Dirty {
   /// the constant is bound by a destructuring pattern / declared with `using`
   DestructuredConst,
   UsingConst,
+  /// a call in a computed key of an otherwise leavable object literal
+  CallInComputedKey,
+  /// concise arrow with a leavable but not inferable body, no return type, and a parameter default with logic
+  ConciseArrowDefaultParam,
 }
 
 #[derive(Clone, Debug, PartialEq, Eq, Hash)]
@@ -367,7 +371,7 @@ pub fn gen_pkg(rng: &mut Rng, name: &str, n_files: usize, dirty: bool) -> Pkg {
           Dirty::DefaultParamNeedsInference,
           Dirty::EarlyBareReturn,
         ]),
-        DK::ArrowConst => *rng.pick(&[Dirty::MissingReturnType, Dirty::EarlyBareReturn]),
+        DK::ArrowConst => *rng.pick(&[Dirty::MissingReturnType, Dirty::EarlyBareReturn, Dirty::ConciseArrowDefaultParam]),
         DK::Class => *rng.pick(&[
           Dirty::MethodEarlyBareReturn,
           Dirty::UntypedClassProp,
@@ -397,6 +401,7 @@ pub fn gen_pkg(rng: &mut Rng, name: &str, n_files: usize, dirty: bool) -> Pkg {
           Dirty::CallInTemplateFirstSlot,
           Dirty::CallInConditional,
           Dirty::NewInArray,
+          Dirty::CallInComputedKey,
         ]),
         _ => Dirty::MissingReturnType,
       });
@@ -624,12 +629,27 @@ impl Ctx<'_> {
         imports.insert(format!("import type {{ {} }} from \"{}\";", d.name, via));
         d.name.clone()
       }
+      // generic targets (their renderings declare `<T = ...>`) take a type argument that names a private,
+      // file-local type nothing else refers to
+      3 if type_pos && d.kind.is_type_namespace() && generic_arity(d) => {
+        imports.insert("type HiddenArg = { hidden: number };".to_string());
+        format!("import(\"{}\").{}<HiddenArg>", via, d.name)
+      }
       3 if type_pos && d.kind.is_type_namespace() => format!("import(\"{}\").{}", via, d.name),
       _ => {
         imports.insert(format!("import {{ {} }} from \"{}\";", d.name, via));
         d.name.clone()
       }
     }
+  }
+}
+
+/// whether the rendering of `d` declares one (defaulted) type parameter
+fn generic_arity(d: &Decl) -> bool {
+  match d.kind {
+    DK::Interface | DK::TypeAlias => d.variant % 3 == 0,
+    DK::Class | DK::AbstractClass => d.variant % 4 == 0,
+    _ => false,
   }
 }
 
@@ -855,6 +875,14 @@ pub fn render_file(p: &Pkg, f: usize) -> String {
             "  constructor(public bad = compute(1)) {{\n    {}\n  }}\n",
             if has_super { "super(undefined as any, 1);" } else { "" }
           ));
+        } else if v % 2 == 0 && v % 10 == 4 && parent.is_none() {
+          // constructor overloads whose implementation declares parameter properties
+          s.push_str(&format!(
+            "  constructor(px: {});\n  constructor(px: {}, py: number);\n  constructor(public px: any, readonly py?: any) {{\n{}  }}\n",
+            t(2),
+            t(2),
+            body_use
+          ));
         } else if v % 2 == 0 {
           s.push_str(&format!(
             "  constructor(public param: {}, private other: number = 1, {}third?: {}, public level: number | string = 1, readonly tag: \"a\" | \"b\" = \"a\") {{\n    {}\n{}  }}\n",
@@ -1012,6 +1040,9 @@ pub fn render_file(p: &Pkg, f: usize) -> String {
         };
         body.push_str(&format!("{}const {} = {};\n", ex, d.name, lit));
       }
+      DK::ArrowConst if d.dirty == Some(Dirty::ConciseArrowDefaultParam) => {
+        body.push_str(&format!("{}const {} = (a: {}, b = compute(2)) => [a, b, 1] as const;\n", ex, d.name, t(0)));
+      }
       DK::ArrowConst => {
         let ret = match d.dirty {
           Some(Dirty::MissingReturnType) | Some(Dirty::EarlyBareReturn) => String::new(),
@@ -1057,6 +1088,7 @@ pub fn render_file(p: &Pkg, f: usize) -> String {
           Some(Dirty::CallInTemplateFirstSlot) => "[`${compute(1)} of ${10}`]".to_string(),
           Some(Dirty::CallInConditional) => "true ? compute(1) : 2".to_string(),
           Some(Dirty::NewInArray) => "[new Map()]".to_string(),
+          Some(Dirty::CallInComputedKey) => "{ plain: 1, [String(compute(1))]: 2 }".to_string(),
           _ => match v % 5 {
             0 => format!("[{}, \"x\", {}]", vref(0), vref(1)),
             1 => format!("{{ a: {}, \"b\": [{}], 3: -1, nested: {{ c: null }} }}", vref(0), vref(1)),
